@@ -3,7 +3,8 @@ CONSTANTS
  Confs <- ShapeConfsOn
  MaxCloses = 2
  MaxOps = 1
- KeyMode = "clean"
+ KeyMode = "resolve"
+ LockRefTgt = TRUE
  Eager = TRUE
 SPECIFICATION Spec
 INVARIANTS TypeOK LocksNonNeg LocksExact MarkIsReach FallbackPresent CopyKeeps
